@@ -7,10 +7,44 @@ open AsyncsshModel
 set_option linter.unusedSimpArgs false
 set_option linter.unusedVariables false
 
-/-- every open listener is registered, and a key is registered once -/
+/-- (used for `sockDest`: a path without NUL is read in full) -/
+theorem takeWhile_self_of_all {α : Type} (p : α → Bool) : ∀ (l : List α), (∀ x ∈ l, p x = true) →
+    l.takeWhile p = l
+  | [], _ => rfl
+  | a :: r, h => by
+    have ha : p a = true := h a (by simp)
+    simp only [List.takeWhile_cons, ha, if_true]
+    rw [takeWhile_self_of_all p r (fun x hx => h x (List.mem_cons_of_mem _ hx))]
+
+theorem hasKey_true {t : List (LKey × Nat)} {k : LKey} : hasKey t k = true ↔ ∃ i, (k, i) ∈ t := by
+  simp only [hasKey, List.find?_isSome]
+  constructor
+  · rintro ⟨⟨k', i⟩, hm, hk⟩
+    simp only [beq_iff_eq] at hk
+    subst hk
+    exact ⟨i, hm⟩
+  · rintro ⟨i, hm⟩
+    exact ⟨(k, i), hm, by simp⟩
+
+theorem hasKey_false {t : List (LKey × Nat)} {k : LKey} : hasKey t k = false ↔ ∀ i, (k, i) ∉ t := by
+  constructor
+  · intro h i hm
+    have : hasKey t k = true := hasKey_true.mpr ⟨i, hm⟩
+    rw [h] at this
+    cases this
+  · intro h
+    cases hk : hasKey t k
+    · rfl
+    · obtain ⟨i, hm⟩ := hasKey_true.mp hk
+      exact absurd hm (h i)
+
+/-- every open listener is registered, a key is registered once, and a UNIX path whose listener is being
+    created is neither registered nor being created a second time -/
 structure Linv (s : LState) : Prop where
   listed : ∀ id ∈ s.listening, ∃ k, (k, id) ∈ s.table
   keyUniq : ∀ k i j, (k, i) ∈ s.table → (k, j) ∈ s.table → i = j
+  pendFresh : ∀ p ∈ s.pending, p.2.isUnix = true → hasKey s.table p.2 = false
+  pendUniq : ∀ p ∈ s.pending, ∀ q ∈ s.pending, p.2.isUnix = true → p.2 = q.2 → p.1 = q.1
 
 theorem linv_init : Linv {} := by
   constructor <;> simp
@@ -18,6 +52,24 @@ theorem linv_init : Linv {} := by
 theorem mem_tableErase {t : List (LKey × Nat)} {k k' : LKey} {i : Nat} :
     (k', i) ∈ tableErase t k ↔ (k', i) ∈ t ∧ k' ≠ k := by
   simp [tableErase]
+
+theorem tableErase_of_not_hasKey {t : List (LKey × Nat)} {k : LKey} (h : hasKey t k = false) :
+    tableErase t k = t := by
+  unfold tableErase
+  rw [List.filter_eq_self]
+  intro e he
+  simp only [bne_iff_ne, ne_eq]
+  intro hk
+  obtain ⟨k', i⟩ := e
+  simp only at hk
+  subst hk
+  exact (hasKey_false.mp h) i he
+
+theorem hasKey_tableErase_false {t : List (LKey × Nat)} {k q : LKey} (h : hasKey t q = false) :
+    hasKey (tableErase t k) q = false := by
+  rw [hasKey_false] at h ⊢
+  intro i hm
+  exact h i (mem_tableErase.mp hm).1
 
 theorem linv_closeL (s : LState) (k : LKey) (id : Nat) (h : Linv s) (hm : (k, id) ∈ s.table) :
     Linv (closeL s k id) := by
@@ -36,6 +88,9 @@ theorem linv_closeL (s : LState) (k : LKey) (id : Nat) (h : Linv s) (hm : (k, id
     simp only [closeL] at hi hj
     rw [mem_tableErase] at hi hj
     exact h.keyUniq k' i j hi.1 hj.1
+  · intro p hp hu
+    exact hasKey_tableErase_false (h.pendFresh p hp hu)
+  · exact h.pendUniq
 
 /-- `closeAll` over a snapshot `t` erases exactly the keys and ids of `t` -/
 theorem closeAll_spec (t : List (LKey × Nat)) : ∀ s : LState,
@@ -68,9 +123,9 @@ theorem closeAll_spec (t : List (LKey × Nat)) : ∀ s : LState,
     · rw [h4]; rfl
     · rw [h5]; rfl
 
-theorem cleanup_empty (fix : Bool) (s : LState) (h : Linv s) :
-    (lstep fix s .cleanup).table = [] ∧ (lstep fix s .cleanup).listening = [] ∧
-    (lstep fix s .cleanup).cleaned = true ∧ (lstep fix s .cleanup).pending = s.pending := by
+theorem cleanup_empty (v : LVariant) (s : LState) (h : Linv s) :
+    (lstep v s .cleanup).table = [] ∧ (lstep v s .cleanup).listening = [] ∧
+    (lstep v s .cleanup).cleaned = true ∧ (lstep v s .cleanup).pending = s.pending := by
   obtain ⟨h1, h2, h3, _, _⟩ := closeAll_spec s.table s
   refine ⟨?_, ?_, ?_, ?_⟩
   · show (closeAll s.table s).table = []
@@ -83,7 +138,7 @@ theorem cleanup_empty (fix : Bool) (s : LState) (h : Linv s) :
     intro i hi
     obtain ⟨k, hk⟩ := h.listed i hi
     simp
-    exact ⟨k.1, k.2, hk⟩
+    exact ⟨k, hk⟩
   · rfl
   · show (closeAll s.table s).pending = s.pending
     exact h3
@@ -100,44 +155,106 @@ theorem find_id_mem {t : List (LKey × Nat)} {id : Nat} {e : LKey × Nat}
   have h2 := List.mem_of_find?_eq_some h
   exact ⟨h2, by simpa using h1⟩
 
-theorem linv_step (fix : Bool) (s : LState) (e : LEv) (h : Linv s) : Linv (lstep fix s e) := by
+theorem find_pending_mem {p : List (Nat × LKey)} {id : Nat} {e : Nat × LKey}
+    (h : p.find? (·.1 == id) = some e) : e ∈ p ∧ e.1 = id := by
+  have h1 := List.find?_some h
+  have h2 := List.mem_of_find?_eq_some h
+  exact ⟨h2, by simpa using h1⟩
+
+theorem linv_step (v : LVariant) (s : LState) (e : LEv) (h : Linv s) (hl : llegal v s e = true) :
+    Linv (lstep v s e) := by
   cases e with
   | request k g =>
     simp only [lstep]
     split
-    · exact ⟨h.listed, h.keyUniq⟩
     · exact h
+    · rename_i hg
+      have hg' : g = true := by simpa using hg
+      subst hg'
+      split
+      · exact ⟨h.listed, h.keyUniq, h.pendFresh, h.pendUniq⟩
+      · rename_i hnd
+        simp only [llegal, Bool.or_eq_true, Bool.not_eq_true', Bool.and_eq_true, List.any_eq_false,
+          beq_iff_eq] at hl
+        have hfresh : k.isUnix = true → hasKey s.table k = false := by
+          intro hu
+          rcases hl with hl | ⟨_, hl | hl⟩
+          · rw [hu] at hl; cases hl
+          · cases hk : hasKey s.table k
+            · rfl
+            · exact absurd (by simp [hl, hu, hk]) hnd
+          · exact hl
+        have hnone : k.isUnix = true → ∀ p ∈ s.pending, p.2 ≠ k := by
+          intro hu p hp
+          rcases hl with hl | ⟨hl, _⟩
+          · rw [hu] at hl; cases hl
+          · exact hl p hp
+        refine ⟨h.listed, h.keyUniq, ?_, ?_⟩
+        · intro p hp hu
+          simp only [List.mem_append, List.mem_singleton] at hp
+          rcases hp with hp | rfl
+          · exact h.pendFresh p hp hu
+          · exact hfresh hu
+        · intro p hp q hq hu hpq
+          simp only [List.mem_append, List.mem_singleton] at hp hq
+          rcases hp with hp | rfl <;> rcases hq with hq | rfl
+          · exact h.pendUniq p hp q hq hu hpq
+          · exact absurd hpq (hnone (by simp only at hpq; rw [← hpq]; exact hu) p hp)
+          · exact absurd hpq.symm (hnone hu q hq)
+          · rfl
   | created id =>
     simp only [lstep]
     split
     · exact h
-    · rename_i k hfind
+    · rename_i id' k hfind
+      obtain ⟨hpm, hid⟩ := find_pending_mem hfind
+      simp only at hid
+      subst hid
+      have hsub : ∀ q ∈ s.pending.filter (·.1 != id'), q ∈ s.pending := fun q hq => (List.mem_filter.mp hq).1
       split
-      · exact ⟨h.listed, h.keyUniq⟩
-      · rename_i hfree
+      · exact ⟨h.listed, h.keyUniq, fun p hp => h.pendFresh p (hsub p hp),
+          fun p hp q hq => h.pendUniq p (hsub p hp) q (hsub q hq)⟩
+      · rename_i hbind
         split
-        · exact ⟨h.listed, h.keyUniq⟩
-        · constructor
-          · intro id' hid'
-            simp only [List.mem_cons] at hid'
-            rcases hid' with rfl | hid'
+        · exact ⟨h.listed, h.keyUniq, fun p hp => h.pendFresh p (hsub p hp),
+            fun p hp q hq => h.pendUniq p (hsub p hp) q (hsub q hq)⟩
+        · have hfree : hasKey s.table k = false := by
+            cases hu : k.isUnix
+            · cases hk : hasKey s.table k
+              · rfl
+              · exact absurd (by simp [hk, hu]) hbind
+            · exact h.pendFresh _ hpm hu
+          have hnone := hasKey_false.mp hfree
+          simp only [tableErase_of_not_hasKey hfree]
+          constructor
+          · intro id'' hid''
+            simp only [List.mem_cons] at hid''
+            rcases hid'' with rfl | hid''
             · exact ⟨k, by simp⟩
-            · obtain ⟨k', hk'⟩ := h.listed id' hid'
+            · obtain ⟨k', hk'⟩ := h.listed id'' hid''
               exact ⟨k', by simp [hk']⟩
           · intro k' i j hi hj
             simp only [List.mem_cons, Prod.mk.injEq] at hi hj
-            have hnone : ∀ x, (k, x) ∉ s.table := by
-              intro x hx
-              have : (s.table.find? (·.1 == k)).isSome = true := by
-                rw [List.find?_isSome]
-                exact ⟨(k, x), hx, by simp⟩
-              exact hfree this
             rcases hi with ⟨hi1, hi2⟩ | hi <;> rcases hj with ⟨hj1, hj2⟩ | hj
             · rw [hi2, hj2]
             · rw [hi1] at hj; exact absurd hj (hnone _)
             · rw [hj1] at hi; exact absurd hi (hnone _)
             · exact h.keyUniq _ _ _ hi hj
-  | createFailed id => exact ⟨h.listed, h.keyUniq⟩
+          · intro q hq hu
+            have hq' := List.mem_filter.mp hq
+            rw [hasKey_false]
+            intro i hm
+            simp only [List.mem_cons, Prod.mk.injEq] at hm
+            rcases hm with ⟨hk, _⟩ | hm
+            · have := h.pendUniq q hq'.1 _ hpm hu hk
+              simp only [bne_iff_ne, ne_eq] at hq'
+              exact hq'.2 this
+            · exact (hasKey_false.mp (h.pendFresh q hq'.1 hu)) i hm
+          · exact fun p hp q hq => h.pendUniq p (hsub p hp) q (hsub q hq)
+  | createFailed id =>
+    have hsub : ∀ q ∈ s.pending.filter (·.1 != id), q ∈ s.pending := fun q hq => (List.mem_filter.mp hq).1
+    exact ⟨h.listed, h.keyUniq, fun p hp => h.pendFresh p (hsub p hp),
+      fun p hp q hq => h.pendUniq p (hsub p hp) q (hsub q hq)⟩
   | cancel k =>
     simp only [lstep]
     split
@@ -155,33 +272,41 @@ theorem linv_step (fix : Bool) (s : LState) (e : LEv) (h : Linv s) : Linv (lstep
       subst hk
       exact linv_closeL s k _ h hm
   | cleanup =>
-    obtain ⟨h1, h2, _, _⟩ := cleanup_empty fix s h
+    obtain ⟨h1, h2, _, h4⟩ := cleanup_empty v s h
     constructor
     · intro id hid; rw [h2] at hid; cases hid
     · intro k i j hi; rw [h1] at hi; cases hi
+    · intro p _ _; rw [h1]; rfl
+    · rw [h4]; exact h.pendUniq
 
-theorem linv_run (fix : Bool) (evs : List LEv) : ∀ s, Linv s → Linv (lrun fix s evs) := by
+theorem linv_run (v : LVariant) (evs : List LEv) : ∀ s, Linv s → llegalRun v s evs = true →
+    Linv (lrun v s evs) := by
   induction evs with
-  | nil => intro s h; exact h
-  | cons e es ih => intro s h; exact ih _ (linv_step fix s e h)
+  | nil => intro s h _; exact h
+  | cons e es ih =>
+    intro s h hl
+    simp only [llegalRun, Bool.and_eq_true] at hl
+    exact ih _ (linv_step v s e h hl.1) hl.2
 
 /-- released: nothing registered, nothing listening -/
 def Released (s : LState) : Prop := s.table = [] ∧ s.listening = []
 
 /-- closing on an empty table changes nothing that matters -/
-theorem released_step (fix : Bool) (s : LState) (e : LEv) (hr : Released s) (hc : s.cleaned = true)
-    (he : fix = true ∨ ∀ id, e ≠ .created id) :
-    Released (lstep fix s e) ∧ (lstep fix s e).cleaned = true := by
+theorem released_step (v : LVariant) (s : LState) (e : LEv) (hr : Released s) (hc : s.cleaned = true)
+    (he : v.fixRace = true ∨ ∀ id, e ≠ .created id) :
+    Released (lstep v s e) ∧ (lstep v s e).cleaned = true := by
   obtain ⟨ht, hl⟩ := hr
   cases e with
   | request k g =>
-    simp only [lstep]; split <;> exact ⟨⟨ht, hl⟩, hc⟩
+    simp only [lstep]; split
+    · exact ⟨⟨ht, hl⟩, hc⟩
+    · split <;> exact ⟨⟨ht, hl⟩, hc⟩
   | created id =>
-    rcases he with rfl | he
+    rcases he with he | he
     · simp only [lstep]
       split
       · exact ⟨⟨ht, hl⟩, hc⟩
-      · simp [ht, hc, hl, Released]
+      · simp [ht, hc, hl, he, Released, hasKey]
     · exact absurd rfl (he id)
   | createFailed id => exact ⟨⟨ht, hl⟩, hc⟩
   | cancel k => simp only [lstep, ht, List.find?_nil]; exact ⟨⟨ht, hl⟩, hc⟩
@@ -189,13 +314,13 @@ theorem released_step (fix : Bool) (s : LState) (e : LEv) (hr : Released s) (hc 
   | cleanup =>
     simp [lstep, ht, closeAll, Released, hl]
 
-theorem released_run (fix : Bool) (evs : List LEv) : ∀ s, Released s → s.cleaned = true →
-    (fix = true ∨ ∀ id, LEv.created id ∉ evs) → Released (lrun fix s evs) := by
+theorem released_run (v : LVariant) (evs : List LEv) : ∀ s, Released s → s.cleaned = true →
+    (v.fixRace = true ∨ ∀ id, LEv.created id ∉ evs) → Released (lrun v s evs) := by
   induction evs with
   | nil => intro s h _ _; exact h
   | cons e es ih =>
     intro s hr hc he
-    have h1 := released_step fix s e hr hc (by
+    have h1 := released_step v s e hr hc (by
       rcases he with h | h
       · exact Or.inl h
       · right; intro id hid; exact h id (by rw [hid]; simp))
@@ -203,5 +328,16 @@ theorem released_run (fix : Bool) (evs : List LEv) : ∀ s, Released s → s.cle
       rcases he with h | h
       · exact Or.inl h
       · right; intro id hid; exact h id (List.mem_cons_of_mem _ hid))
+
+theorem lrun_append (v : LVariant) (l m : List LEv) : ∀ s, lrun v s (l ++ m) = lrun v (lrun v s l) m := by
+  induction l with
+  | nil => intro s; rfl
+  | cons e es ih => intro s; simp only [List.cons_append, lrun]; exact ih _
+
+theorem llegalRun_append (v : LVariant) (l m : List LEv) : ∀ s,
+    llegalRun v s (l ++ m) = (llegalRun v s l && llegalRun v (lrun v s l) m) := by
+  induction l with
+  | nil => intro s; simp [llegalRun, lrun]
+  | cons e es ih => intro s; simp only [List.cons_append, llegalRun, lrun, ih, Bool.and_assoc]
 
 end AsyncsshModel.Forward
